@@ -950,6 +950,223 @@ def unroll_constant_loops(tree):
     ast.fix_missing_locations(tree)
 
 
+class _FoldConst(ast.NodeTransformer):
+    """'underflow' + ':type' -> 'underflow:type' (string/int constants only)"""
+
+    def visit_BinOp(self, n):
+        self.generic_visit(n)
+        if isinstance(n.op, ast.Add) and isinstance(n.left, ast.Constant) and isinstance(n.right, ast.Constant):
+            a, b = n.left.value, n.right.value
+            if (isinstance(a, str) and isinstance(b, str)) or (type(a) is int and type(b) is int):
+                return ast.copy_location(ast.Constant(value=a + b), n)
+        return n
+
+
+def propagate_constants(tree):
+    """N19  constant folding of string/int sums, and a local that is bound once to a string/int constant (typically left behind by
+    the unrolling of a table loop: `typeKey = 'underflow:type'`) is replaced by the constant"""
+    _FoldConst().visit(tree)
+    for fn in ast.walk(tree):
+        if not isinstance(fn, (ast.FunctionDef, ast.AsyncFunctionDef)):
+            continue
+        params = {a.arg for a in fn.args.posonlyargs + fn.args.args + fn.args.kwonlyargs}
+        changed = True
+        rounds = 0
+        while changed and rounds < 4:
+            changed = False
+            rounds += 1
+            stores = {}
+            for x in ast.walk(fn):
+                if isinstance(x, ast.Name) and isinstance(x.ctx, (ast.Store, ast.Del)):
+                    stores[x.id] = stores.get(x.id, 0) + 1
+            consts = {}
+            holders = {}
+            for node in ast.walk(fn):
+                for fld in ("body", "orelse", "finalbody"):
+                    b = getattr(node, fld, None)
+                    if isinstance(b, list) and b and isinstance(b[0], ast.stmt):
+                        for st in b:
+                            if isinstance(st, ast.Assign) and len(st.targets) == 1 and isinstance(st.targets[0], ast.Name) and isinstance(st.value, ast.Constant) \
+                                    and isinstance(st.value.value, (str, int)) and not isinstance(st.value.value, bool) \
+                                    and stores.get(st.targets[0].id) == 1 and st.targets[0].id not in params:
+                                consts[st.targets[0].id] = st.value
+                                holders[st.targets[0].id] = (b, st)
+            if not consts:
+                break
+            # a nested function or a global/nonlocal declaration makes the name's binding non-local: leave it
+            for x in ast.walk(fn):
+                if isinstance(x, (ast.Global, ast.Nonlocal)):
+                    for nm in x.names:
+                        consts.pop(nm, None)
+
+            class P(ast.NodeTransformer):
+                def visit_Name(self, n):
+                    if isinstance(n.ctx, ast.Load) and n.id in consts:
+                        return ast.copy_location(ast.Constant(value=consts[n.id].value), n)
+                    return n
+            for k in list(consts):
+                b, st = holders[k]
+                # only when the binding comes textually before every read (straight unrolled code)
+                reads = [x for x in ast.walk(fn) if isinstance(x, ast.Name) and x.id == k and isinstance(x.ctx, ast.Load)]
+                if any((x.lineno, x.col_offset) < (st.lineno, st.col_offset) for x in reads) and len({x.lineno for x in reads} | {st.lineno}) > 1 \
+                        and any(x.lineno < st.lineno for x in reads):
+                    consts.pop(k)
+            if not consts:
+                break
+            P().visit(fn)
+            for k in consts:
+                b, st = holders[k]
+                if st in b and len(b) > 1:
+                    b.remove(st)
+            _FoldConst().visit(fn)
+            changed = True
+    ast.fix_missing_locations(tree)
+
+
+def unpack_appended_lists(tree):
+    """N20  L = [] ; ... L.append(a) ... L.append(b) ... ; x, y = L      ->      ... x = a ... y = b ...
+    when L is used for nothing else, every append runs exactly once on every path that reaches the unpacking (not in a loop; the
+    other branch of an enclosing `if` always exits) and the counts agree"""
+    from .canon import always_exits
+    for fn in ast.walk(tree):
+        if not isinstance(fn, (ast.FunctionDef, ast.AsyncFunctionDef)):
+            continue
+        for node in ast.walk(fn):
+            for fld in ("body", "orelse"):
+                b = getattr(node, fld, None)
+                if not (isinstance(b, list) and b and isinstance(b[0], ast.stmt)):
+                    continue
+                for i, st in enumerate(list(b)):
+                    if not (isinstance(st, ast.Assign) and len(st.targets) == 1 and isinstance(st.targets[0], ast.Name) and isinstance(st.value, ast.List)
+                            and not st.value.elts):
+                        continue
+                    L = st.targets[0].id
+                    uses = [x for x in ast.walk(fn) if isinstance(x, ast.Name) and x.id == L]
+                    # find the unpacking in the same block
+                    unpack = None
+                    for st2 in b[b.index(st) + 1:]:
+                        if isinstance(st2, ast.Assign) and len(st2.targets) == 1 and isinstance(st2.targets[0], (ast.Tuple, ast.List)) and \
+                                isinstance(st2.value, ast.Name) and st2.value.id == L and all(isinstance(t, ast.Name) for t in st2.targets[0].elts):
+                            unpack = st2
+                            break
+                    if unpack is None:
+                        continue
+                    region = b[b.index(st) + 1:b.index(unpack)]
+                    appends = []
+
+                    def collect(stmts, ok_ctx, owner=None):
+                        for s2 in stmts:
+                            stmts_real = owner if owner is not None else stmts
+                            if isinstance(s2, ast.Expr) and isinstance(s2.value, ast.Call) and isinstance(s2.value.func, ast.Attribute) and \
+                                    isinstance(s2.value.func.value, ast.Name) and s2.value.func.value.id == L and s2.value.func.attr == "append" \
+                                    and len(s2.value.args) == 1 and not s2.value.keywords:
+                                appends.append((stmts_real, s2, ok_ctx))
+                            elif isinstance(s2, ast.If):
+                                collect(s2.body, ok_ctx and (always_exits(s2.orelse) if s2.orelse else False))
+                                collect(s2.orelse, ok_ctx and always_exits(s2.body))
+                            elif isinstance(s2, (ast.For, ast.While, ast.Try, ast.With)):
+                                collect(getattr(s2, "body", []), False)
+                                collect(getattr(s2, "orelse", []), False)
+                    collect(region, True, owner=b)
+                    n_uses_expected = 1 + len(appends) + 1
+                    if len(uses) != n_uses_expected or len(appends) != len(unpack.targets[0].elts) or not appends or not all(a[2] for a in appends):
+                        continue
+                    for (blk, s2, _), tgt in zip(appends, unpack.targets[0].elts):
+                        new = ast.Assign(targets=[ast.Name(id=tgt.id, ctx=ast.Store())], value=s2.value.args[0])
+                        ast.copy_location(new, s2)
+                        blk[blk.index(s2)] = new
+                    b.remove(unpack)
+                    if len(b) > 1:
+                        b.remove(st)
+    ast.fix_missing_locations(tree)
+
+
+def unfold_dispatch_tables(tree):
+    """N21  f = TABLE[k1, k2] ; return f(x, y)     ->     if k1 and k2: return fa(x, y) / elif k1 and not k2: return fb(x, y) / ...
+    for a module-level dict literal with constant keys and function names as values (a dispatch table): the chain of tests the
+    table stands for.  `bool(c)` compared with True/False becomes `c` / `not c`."""
+    tables = {}
+    for st in tree.body:
+        if isinstance(st, ast.Assign) and len(st.targets) == 1 and isinstance(st.targets[0], ast.Name) and isinstance(st.value, ast.Dict) and st.value.keys \
+                and all(k is not None and (isinstance(k, ast.Constant) or (isinstance(k, ast.Tuple) and all(isinstance(x, ast.Constant) for x in k.elts)))
+                        for k in st.value.keys) and all(isinstance(v, ast.Name) for v in st.value.values) and len(st.value.keys) <= 16:
+            tables[st.targets[0].id] = st.value
+    if not tables:
+        return
+    # the table must not be rebound or mutated anywhere in the module
+    for x in ast.walk(tree):
+        if isinstance(x, ast.Name) and x.id in tables and isinstance(x.ctx, (ast.Store, ast.Del)):
+            n = sum(1 for y in ast.walk(tree) if isinstance(y, ast.Name) and y.id == x.id and isinstance(y.ctx, (ast.Store, ast.Del)))
+            if n > 1:
+                tables.pop(x.id, None)
+        if isinstance(x, (ast.Subscript, ast.Attribute)) and isinstance(x.ctx, (ast.Store, ast.Del)) and isinstance(x.value, ast.Name):
+            tables.pop(x.value.id, None)
+    if not tables:
+        return
+
+    def test_for(keyexpr, const):
+        ks = list(keyexpr.elts) if isinstance(keyexpr, ast.Tuple) else [keyexpr]
+        cs = list(const.elts) if isinstance(const, ast.Tuple) else [const]
+        if len(ks) != len(cs):
+            return None
+        parts = []
+        for k, c0 in zip(ks, cs):
+            k = copy.deepcopy(k)
+            if isinstance(c0.value, bool) and isinstance(k, ast.Call) and isinstance(k.func, ast.Name) and k.func.id == "bool" and len(k.args) == 1:
+                parts.append(k.args[0] if c0.value else ast.UnaryOp(op=ast.Not(), operand=k.args[0]))
+            elif isinstance(c0.value, bool) and isinstance(k, (ast.Compare, ast.BoolOp)):
+                parts.append(k if c0.value else ast.UnaryOp(op=ast.Not(), operand=k))
+            else:
+                parts.append(ast.Compare(left=k, ops=[ast.Eq()], comparators=[ast.Constant(value=c0.value)]))
+        return parts[0] if len(parts) == 1 else ast.BoolOp(op=ast.And(), values=parts)
+
+    for fn in ast.walk(tree):
+        if not isinstance(fn, (ast.FunctionDef, ast.AsyncFunctionDef)):
+            continue
+        for node in ast.walk(fn):
+            for fld in ("body", "orelse"):
+                b = getattr(node, fld, None)
+                if not (isinstance(b, list) and b and isinstance(b[0], ast.stmt)):
+                    continue
+                i = 0
+                while i + 1 < len(b):
+                    st, nx = b[i], b[i + 1]
+                    i += 1
+                    if not (isinstance(st, ast.Assign) and len(st.targets) == 1 and isinstance(st.targets[0], ast.Name) and isinstance(st.value, ast.Subscript)
+                            and isinstance(st.value.value, ast.Name) and st.value.value.id in tables):
+                        continue
+                    v = st.targets[0].id
+                    uses = [x for x in ast.walk(fn) if isinstance(x, ast.Name) and x.id == v]
+                    calls = [x for x in ast.walk(nx) if isinstance(x, ast.Call) and isinstance(x.func, ast.Name) and x.func.id == v]
+                    if len(uses) != 2 or len(calls) != 1 or isinstance(nx, (ast.If, ast.For, ast.While, ast.Try, ast.With, ast.FunctionDef)):
+                        continue
+                    table = tables[st.value.value.id]
+                    chain = None
+                    ok = True
+                    for k, fname in reversed(list(zip(table.keys, table.values))):
+                        t = test_for(st.value.slice, k)
+                        if t is None:
+                            ok = False
+                            break
+                        body = copy.deepcopy(nx)
+                        for x in ast.walk(body):
+                            if isinstance(x, ast.Call) and isinstance(x.func, ast.Name) and x.func.id == v:
+                                x.func = ast.Name(id=fname.id, ctx=ast.Load())
+                        if chain is None:
+                            miss = ast.Raise(exc=ast.Call(func=ast.Name(id="KeyError", ctx=ast.Load()), args=[copy.deepcopy(st.value.slice)], keywords=[]), cause=None)
+                            chain = ast.If(test=t, body=[body], orelse=[miss])
+                        else:
+                            chain = ast.If(test=t, body=[body], orelse=[chain])
+                    if not ok or chain is None:
+                        continue
+                    for x in ast.walk(chain):
+                        if isinstance(x, (ast.stmt, ast.expr)):
+                            x.lineno, x.col_offset = st.lineno, st.col_offset
+                            x.end_lineno, x.end_col_offset = getattr(nx, "end_lineno", st.lineno), getattr(nx, "end_col_offset", st.col_offset)
+                    b[i - 1:i + 1] = [chain]
+    ast.fix_missing_locations(tree)
+
+
 PURE_CALLS = {"math.isnan", "math.isinf", "math.isfinite", "np.isnan", "numpy.isnan", "isinstance", "len", "abs", "float", "int", "bool", "min", "max"}
 
 
@@ -978,6 +1195,16 @@ def split_parallel_assignments(tree):
             while i < len(b):
                 st = b[i]
                 i += 1
+                # N22  a, b, c = (E(k) for k in (x, y, z))   ->   a, b, c = E(x), E(y), E(z)
+                if isinstance(st, ast.Assign) and len(st.targets) == 1 and isinstance(st.targets[0], ast.Tuple) and \
+                        isinstance(st.value, (ast.GeneratorExp, ast.ListComp)) and len(st.value.generators) == 1:
+                    g0 = st.value.generators[0]
+                    if isinstance(g0.target, ast.Name) and not g0.ifs and not g0.is_async and isinstance(g0.iter, (ast.Tuple, ast.List)) and \
+                            len(g0.iter.elts) == len(st.targets[0].elts) and not any(isinstance(x, ast.Starred) for x in g0.iter.elts) and \
+                            all(_simple_arg(x) or _pure_arg(x) for x in g0.iter.elts):
+                        elts = [_Subst({g0.target.id: x}, {}).visit(copy.deepcopy(st.value.elt)) for x in g0.iter.elts]
+                        st.value = ast.copy_location(ast.Tuple(elts=elts, ctx=ast.Load()), st.value)
+                        ast.fix_missing_locations(st)
                 if not (isinstance(st, ast.Assign) and len(st.targets) == 1 and isinstance(st.targets[0], ast.Tuple) and isinstance(st.value, ast.Tuple)
                         and len(st.targets[0].elts) == len(st.value.elts) and len(st.value.elts) >= 2):
                     continue
@@ -1148,6 +1375,9 @@ def flatten_boolops(tree):
 def apply(tree, helpers=True):
     split_parallel_assignments(tree)
     unroll_constant_loops(tree)
+    unfold_dispatch_tables(tree)
+    propagate_constants(tree)
+    unpack_appended_lists(tree)
     operator_idioms(tree)
     if helpers:
         try:
@@ -1155,6 +1385,9 @@ def apply(tree, helpers=True):
         except RecursionError:
             pass
         boolify_tests(tree)
+        # constant arguments substituted into an inlined helper: getattr(x, "min") / 'a' + ':type' spellings once more
+        _FoldConst().visit(tree)
+        _GetAttr().visit(tree)
     from .forward import forward_param_reads
     forward_param_reads(tree)
     for fn in ast.walk(tree):
